@@ -176,10 +176,13 @@ Fixpoint schema_type (schema : list (string * (value -> bool))) (k : string) : o
 Definition validate_settings (schema : list (string * (value -> bool))) (obj : dict) : bool :=
   forallb (fun kv => match schema_type schema (fst kv) with Some t => t (snd kv) | None => false end) obj.
 
-Definition init_schema : list (string * (value -> bool)) :=
-  [("hashing", is_mapping); ("chunking", is_mapping); ("encryption", is_mapping_or_none)].
-Definition init_encryption_schema : list (string * (value -> bool)) :=
-  [("cipher", is_mapping); ("kdf", is_mapping)].
+(* schema tables: key, and whether None is allowed besides a mapping *)
+Definition schema_of (keys : list (string * bool)) : list (string * (value -> bool)) :=
+  map (fun kn : string * bool => (fst kn, if snd kn then is_mapping_or_none else is_mapping)) keys.
+Definition init_schema_keys : list (string * bool) := [("hashing", false); ("chunking", false); ("encryption", true)].
+Definition init_encryption_schema_keys : list (string * bool) := [("cipher", false); ("kdf", false)].
+Definition init_schema := schema_of init_schema_keys.
+Definition init_encryption_schema := schema_of init_encryption_schema_keys.
 
 Definition validate_init_settings (s : dict) : bool :=
   validate_settings init_schema s &&
@@ -188,8 +191,10 @@ Definition validate_init_settings (s : dict) : bool :=
   | _ => true
   end.
 
-Definition add_key_schema : list (string * (value -> bool)) := [("encryption", is_mapping)].
-Definition add_key_encryption_schema : list (string * (value -> bool)) := [("kdf", is_mapping)].
+Definition add_key_schema_keys : list (string * bool) := [("encryption", false)].
+Definition add_key_encryption_schema_keys : list (string * bool) := [("kdf", false)].
+Definition add_key_schema := schema_of add_key_schema_keys.
+Definition add_key_encryption_schema := schema_of add_key_encryption_schema_keys.
 (* settings['encryption'] is subscripted: a missing key raises KeyError *)
 Definition validate_add_key_settings (s : dict) : bool :=
   validate_settings add_key_schema s &&
@@ -338,19 +343,29 @@ Definition settings_dict (s : state) : dict := match st_settings s with Some d =
 Definition sub_dict (k : string) (d : dict) : dict := match lookup k d with Some (VDict x) => x | _ => [] end.
 Definition has_kind (k : kind) (a : adapter) : bool := existsb (kind_eqb k) (a_kinds a).
 
+(* Repository.DEFAULT_*_NAME *)
+Definition DEFAULT_CHUNKER_NAME := "gclmulchunker".
+Definition DEFAULT_CIPHER_NAME := "aes_gcm".
+Definition DEFAULT_HASHER_NAME := "blake2b".
+Definition DEFAULT_MAC_NAME := "blake2b".
+Definition DEFAULT_USER_KDF_NAME := "scrypt".
+Definition DEFAULT_SHARED_KDF_NAME := "blake2b".
+(* _instantiate_config: the adapter class configured for a role must be a subclass of the role's base class *)
+Definition kind_checks : list (string * kind) := [("chunker", KChunker); ("hasher", KHash); ("cipher", KCipher)].
+
 Section WithTable.
 Variable table : list adapter.
 (* AEADCipherAdapterMixin.__init__: key_bits // 8, nonce_bits // 8 *)
 Variable key_bytes_expr nonce_bytes_expr : expr.
 
 Definition make_config (settings : dict) : option config :=
-  match from_config table "blake2b" (sub_dict "hashing" settings) [],
-        from_config table "gclmulchunker" (sub_dict "chunking" settings) [] with
+  match from_config table DEFAULT_HASHER_NAME (sub_dict "hashing" settings) [],
+        from_config table DEFAULT_CHUNKER_NAME (sub_dict "chunking" settings) [] with
   | Some h, Some c =>
     match lookup "encryption" settings with
     | Some VNull => Some {| c_hash := h; c_chunk := c; c_cipher := None |}
     | _ =>
-      match from_config table "aes_gcm" (sub_dict "cipher" (sub_dict "encryption" settings)) [] with
+      match from_config table DEFAULT_CIPHER_NAME (sub_dict "cipher" (sub_dict "encryption" settings)) [] with
       | Some ci => Some {| c_hash := h; c_chunk := c; c_cipher := Some ci |}
       | None => None
       end
@@ -414,9 +429,9 @@ Definition do_step (x : step) (s : state) : option state :=
       | None => None                                 (* a password is needed *)
       | Some _ =>
         let enc := sub_dict "encryption" (settings_dict s) in
-        match from_config table "scrypt" (sub_dict "kdf" enc) [("length", num_value kb)],
-              from_config table "blake2b" [] [("length", num_value kb)],
-              from_config table "blake2b" [] [] with
+        match from_config table DEFAULT_USER_KDF_NAME (sub_dict "kdf" enc) [("length", num_value kb)],
+              from_config table DEFAULT_SHARED_KDF_NAME [] [("length", num_value kb)],
+              from_config table DEFAULT_MAC_NAME [] [] with
         | Some kdf, Some shared, Some mac =>
           if construct (fst kdf) (snd kdf) && construct (fst shared) (snd shared) && construct (fst mac) (snd mac)
              && has_kind KKdf (fst shared) && has_kind KMac (fst mac) && urandom_ok kb then
@@ -513,7 +528,7 @@ Definition add_key_accept (pwlen : option Z) (key_bytes : Z) (settings : option 
   | None => None
   | Some pl =>
     let d := match settings with Some d => d | None => [] end in
-    match from_config table "scrypt" (sub_dict "kdf" (sub_dict "encryption" d)) [("length", VInt key_bytes)] with
+    match from_config table DEFAULT_USER_KDF_NAME (sub_dict "kdf" (sub_dict "encryption" d)) [("length", VInt key_bytes)] with
     | Some kdf =>
       if construct (fst kdf) (snd kdf) && has_kind KKdf (fst kdf) && kdf_domain (a_name (fst kdf)) (snd kdf) key_bytes pl
       then Some kdf else None
